@@ -12,5 +12,15 @@ package python
 //@   iteration 0: imported_namespace_lives_in_the_directory_of_its_module_name: called("python.writeNamespace") && !old(ns.IsTopLevel) ==> lastArg("python.writeNamespace", 2) == path.Join(topPackageDir, common.NamespaceIdentifierName(old(ns.Name)))
 //@   iteration 0: top_level_namespace_lives_in_the_top_directory: called("python.writeNamespace") && old(ns.IsTopLevel) ==> lastArg("python.writeNamespace", 2) == topPackageDir
 
+// C08 "for every documented option combination the generated Python modules import": a package's __init__.py imports
+// its ndjson module exactly when that module is generated (python.generateNDJson), in the form that goes with the kind
+// of package (a top-level package with protocols re-exports the protocol classes, any other imports the module).
+//@ func writePackageInitFile
+//@   property C08
+//@   requires ns != nil
+//@   ensures without_ndjson_nothing_imports_it: !generateNDJson ==> emitted("from . import ndjson\n") == 0 && emitted("from .ndjson import (\n") == 0
+//@   ensures with_ndjson_the_module_is_imported_once: generateNDJson ==> emitted("from . import ndjson\n") + emitted("from .ndjson import (\n") == 1
+//@   ensures the_binary_module_is_always_imported: emitted("from . import binary\n") + emitted("from .binary import (\n") == 1
+
 // Output and diagnostics may not depend on the iteration order of a Go map (C12): decided per `range` over a map.
 //@ map-order C12 package
